@@ -38,6 +38,14 @@ NEW_DOMAINS = {"matmul": ["com.microsoft"], "abs": ["verif.custom"], "both": ["c
 def make_rules(which):
     from onnxscript.rewriter import pattern
     rules = []
+    # family `rewrite-existing-value`: the replacement RETURNS a value that exists already (written as `return x`)
+    for w in which.split("+"):
+        if w == "negneg":
+            rules.append(pattern.RewriteRule(lambda op, x: op.Neg(op.Neg(x)), lambda op, x: x, name="NegNegToX"))
+        elif w == "identity":
+            rules.append(pattern.RewriteRule(lambda op, x: op.Identity(x), lambda op, x: x, name="IdentityToX"))
+        elif w == "addzero":
+            rules.append(pattern.RewriteRule(lambda op, x: op.Add(x, 0.0), lambda op, x: x, name="AddZeroToX"))
     if which in ("matmul", "both"):
         rules.append(pattern.RewriteRule(lambda op, a, b: op.MatMul(a, b),
                                          lambda op, a, b: op.FusedMatMul(a, b, _domain="com.microsoft", _version=1), name="MatMulToFusedMatMul"))
@@ -190,8 +198,8 @@ def where_class(container, path):
     return f"{host}-{'body' if not path else 'subgraph'}"
 
 
-def replay_doc(which, path, container, preimport, entry, host, extra=None):
-    d = {"family": "rewrite-new-domain", "rules": which, "path": list(path), "container": container, "preimport": preimport,
+def replay_doc(which, path, container, preimport, entry, host, extra=None, family="rewrite-new-domain"):
+    d = {"family": family, "rules": which, "path": list(path), "container": container, "preimport": preimport,
          "entry": entry, "model_b64": base64.b64encode(host.SerializeToString()).decode(), "feeds": R.feeds_json(FEEDS)}
     if extra:
         d.update(extra)
@@ -216,10 +224,24 @@ def replay(doc):
         print(f"  {cont}: domains used without an opset import: {miss}")
         rc = 1
     try:
-        onnx.checker.check_model(m2)
+        onnx.checker.check_model(m2, full_check=r.get("family") == "rewrite-existing-value")
     except Exception as e:
         print("  checker:", str(e)[:300])
         rc = 1
+    if r.get("family") == "rewrite-existing-value":
+        d = R.signature_diff(m, m2)
+        if d is not None:
+            print("  signature:", d[1])
+            rc = 1
+        from harness import c03_check
+        ins = {i.name for i in m.graph.input}
+        feeds = [{k: a for k, a in fd.items() if k in ins} for fd in c03_check.feeds_from_json(r["feeds"])]
+        s0, o0 = R.run_ort(m, feeds)
+        s2, o2 = R.run_ort(m2, feeds)
+        print("  onnxruntime original:", s0, "result:", s2 if s2 == "ok" else o2)
+        if s0 == "ok" and (s2 != "ok" or any(R.compare_outputs(a, b, None) is not None for a, b in zip(o0, o2))):
+            print("  outputs differ")
+            rc = 1
     return rc
 
 
@@ -345,10 +367,11 @@ def _model_terms(m):
     return terms
 
 
-def eval_in_coq(ctx, cases, stats):
+def eval_in_coq(ctx, cases, stats, fam="rewrite-new-domain", docf=None, wf_known=None):
     """imports_ok (per container) and wf_graphb (per container) in Coq on the host and on the real result"""
     if not cases:
         return
+    replay_doc = docf or globals()["replay_doc"]
     for start in range(0, len(cases), 150):
         chunk = cases[start:start + 150]
         defs = []
@@ -366,7 +389,7 @@ def eval_in_coq(ctx, cases, stats):
         body += f"Eval vm_compute in (List.length (filter (fun p => imp (fst p) && wf (fst p)) {lst})).\n"
         ok, vals, raw = ctx.coq_eval(["OV.Graph.Syntax", "OV.Graph.Wf"], body, timeout=600, name="rwimports")
         if not ok or len(vals) < 3:
-            ctx.tie_broken("checker", "imports_ok:rewrite-new-domain:evaluation", raw[-1000:])
+            ctx.tie_broken("checker", f"imports_ok:{fam}:evaluation", raw[-1000:])
             return
         import re
         stats["coq-evaluated"] += len(chunk)
@@ -382,12 +405,222 @@ def eval_in_coq(ctx, cases, stats):
                                   "of the host and fails for a container of the result", replay_doc(which, path, cont, pre, entry, host))
                     stats["violations"] += 1
                 else:
-                    ctx.tie_broken("checker", "imports_ok:rewrite-new-domain:python-walk-disagrees", f"{k}")
+                    ctx.tie_broken("checker", f"imports_ok:{fam}:python-walk-disagrees", f"{k}")
             elif i in bad_imp:
                 stats["coq-confirmed-missing-import"] += 1
         for i in parse_nat_list(vals[1]):
             which, path, cont, pre, entry = chunk[i][0]
-            ctx.violation(f"C04:wf_graphb:rewrite-new-domain:{where_class(cont, path)}",
+            if wf_known and (start + i) in wf_known:
+                # the verified checker agrees with onnx.checker about a result that is reported under a known key already
+                ctx.violation(wf_known[start + i], f"{entry} (rules {which}): wf_graphb (Graph/Wf.v) holds for every container of the host and not for the result",
+                              replay_doc(which, path, cont, pre, entry, chunk[i][1]))
+                stats["coq-wf_graphb-confirms-known"] += 1
+                continue
+            ctx.violation(f"C04:wf_graphb:{fam}:{where_class(cont, path)}",
                           f"{entry} (rules {which}): wf_graphb holds for every container of the host and not for the result",
                           replay_doc(which, path, cont, pre, entry, chunk[i][1]))
             stats["violations"] += 1
+
+
+# ------------------------------------------------------------------------------------------------------------ family `rewrite-existing-value`
+# User rules whose replacement returns a value that EXISTS already (Neg(Neg(x)) -> x, Identity(x) -> x, Add(x, 0) -> x written as `return x`), on
+# hosts where the pattern output is a graph output / an interior value / a graph output that is also read, and x is a graph input / an
+# initializer / an initializer that is also a graph input / another graph output / an interior value; in the main graph and in an If branch
+# (x captured from the main graph, pattern output = the branch's output).  When the pattern output is a graph output and x has a fixed name,
+# RewriteRule.try_rewrite keeps both names by a forwarding Identity (and declines when the match IS that Identity).  C04 text: the call
+# returns (totality), the result passes the checker, names / order / element types of the declared inputs and outputs are kept; onnxruntime
+# returns the same numbers.
+XV_RULES = ["negneg", "identity", "addzero"]
+XV_X = ["graph-input", "initializer", "initializer-input", "graph-output", "interior"]
+XV_OUT = ["graph-output", "interior", "graph-output-and-read"]
+XV_FEEDS = [{"c": np.array(True), "x": np.array([1.0, -2.0, 3.5], dtype=np.float32), "a": np.array([0.5, 4.0, -1.0], dtype=np.float32)},
+            {"c": np.array(False), "x": np.array([-0.0, 7.0, -8.25], dtype=np.float32), "a": np.array([2.0, 2.0, 2.0], dtype=np.float32)},
+            {"c": np.array(True), "x": np.zeros(3, dtype=np.float32), "a": np.array([-3.0, 0.0, 1e6], dtype=np.float32)}]
+
+
+def xv_pattern_nodes(rule, v, p, tag=""):
+    """(nodes, initializers) computing p from v with the shape the rule matches"""
+    if rule == "negneg":
+        return [helper.make_node("Neg", [v], [f"t{tag}"]), helper.make_node("Neg", [f"t{tag}"], [p])], []
+    if rule == "identity":
+        return [helper.make_node("Identity", [v], [p])], []
+    zero = numpy_helper.from_array(np.array(0, dtype=np.float32), f"zero{tag}")
+    return [helper.make_node("Add", [v, f"zero{tag}"], [p])], [zero]
+
+
+def xv_host(rule, xk, ok, where, flip):
+    vi = lambda n, s=(3,), t=F: helper.make_tensor_value_info(n, t, list(s))  # noqa: E731
+    ins = [vi("x"), vi("a")]
+    inits, nodes, outs = [], [], []
+    if xk == "graph-input":
+        v = "x"
+    elif xk in ("initializer", "initializer-input"):
+        inits.append(numpy_helper.from_array(np.array([1.0, -2.0, 3.0], dtype=np.float32), "w"))
+        v = "w"
+        if xk == "initializer-input":
+            ins.append(vi("w"))
+    elif xk == "graph-output":
+        nodes.append(helper.make_node("Add", ["x", "a"], ["s"]))
+        outs.append(vi("s"))
+        v = "s"
+    else:
+        nodes.append(helper.make_node("Relu", ["x"], ["u"]))
+        v = "u"
+    if xk != "graph-output":
+        nodes.append(helper.make_node("Mul", ["x", "a"], ["k"]))
+        outs.append(vi("k"))
+    if where == "main":
+        p = "p" if ok == "interior" else "y"
+        pn, pi = xv_pattern_nodes(rule, v, p)
+        nodes += pn
+        inits += pi
+        if ok == "interior":
+            nodes.append(helper.make_node("Sub", ["p", "a"], ["y"]))
+        outs.append(vi("y"))
+        if ok == "graph-output-and-read":
+            nodes.append(helper.make_node("Mul", ["y", "a"], ["q"]))
+            outs.append(vi("q"))
+    else:
+        ins.insert(0, vi("c", (), TensorProto.BOOL))
+        pn, pi = xv_pattern_nodes(rule, v, "bo", "_b")      # the zero of Add(x, 0) is an initializer of the main graph, captured by the branch
+        inits += pi
+        tb = helper.make_graph(pn, "tb", [], [vi("bo")])
+        eb = helper.make_graph([helper.make_node("Abs", [v], ["eo"])], "eb", [], [vi("eo")])
+        if where == "if-else":
+            tb, eb = eb, tb
+        nodes.append(helper.make_node("If", ["c"], ["y"], then_branch=tb, else_branch=eb))
+        outs.append(vi("y"))
+    if flip:
+        outs.reverse()
+    g = helper.make_graph(nodes, "xvhost", ins, outs, initializer=inits)
+    return helper.make_model(g, opset_imports=[helper.make_opsetid("", 18)], ir_version=8 if not flip else 10), v
+
+
+def xv_plan(rng, quick):
+    hosts = [(r, xk, ok, "main") for r in XV_RULES for xk in XV_X for ok in XV_OUT]
+    hosts += [(r, xk, "graph-output", w) for r in XV_RULES for xk in XV_X if xk != "initializer-input" for w in ("if-then", "if-else")]
+    res = []
+    k = rng.randrange(4)
+    for h in hosts:
+        for j in range(1 if quick else 4):
+            res.append(h + (ENTRIES[(k + j) % 4],))
+        k += 1
+    # the forwarding-Identity class (pattern output is a graph output, x has a fixed name) in all four entries
+    for r in ("negneg", "addzero"):
+        for xk in ("graph-input", "initializer", "graph-output"):
+            for e in ENTRIES:
+                res.append((r, xk, "graph-output", "main", e))
+    seen, out = set(), []
+    for p in res:
+        if p not in seen:
+            seen.add(p)
+            out.append(p)
+    return out
+
+
+def _count_ops(m, ops):
+    return sum(1 for _d, o in op_types(m.graph.node) if o in ops)
+
+
+def run_existing_value_family(ctx, quick):
+    stats = collections.Counter()
+    coq_cases = []
+    wf_known = {}
+    base = {}
+    fam = "rewrite-existing-value"
+    for rule, xk, ok, where, entry in xv_plan(ctx.rng, quick):
+        flip = (len(rule) + len(xk) + len(ok)) % 2 == 1
+        host, v = xv_host(rule, xk, ok, where, flip)
+        feeds = [{k: a for k, a in fd.items() if k != "c" or where != "main"} for fd in XV_FEEDS]
+        hk = (rule, xk, ok, where)
+        if hk not in base:
+            try:
+                onnx.checker.check_model(host, full_check=True)
+                base[hk] = R.run_ort(host, feeds)
+            except Exception as e:
+                base[hk] = ("err", f"checker: {e}")
+        s0, o0 = base[hk]
+        if s0 != "ok":
+            ctx.tie_broken("harness", f"{fam}:host-invalid", f"{hk}: {str(o0)[:300]}")
+            stats["host-invalid"] += 1
+            continue
+        stats["runs"] += 1
+        path = () if where == "main" else ("If_then" if where == "if-then" else "If_else",)
+        doc = lambda extra=None: replay_doc(rule, path, f"x={xk},out={ok}", "none", entry, host,  # noqa: E731
+                                            dict({"feeds": R.feeds_json(feeds)}, **(extra or {})), family=fam)
+        cls = f"x={xk}:out={ok}:{where}"
+        try:
+            m2, _count = apply(entry, host, rule)
+        except Exception as e:
+            t, site, msg = R.root_cause(e)
+            ctx.violation(f"C04:raises:{t}:{site}", f"{entry} with the user rule {rule} (replacement returns the existing value x; {cls}) raised {t} at {site}: {msg}", doc())
+            stats["raised"] += 1
+            stats["violations"] += 1
+            continue
+        pat_ops = {"negneg": ["Neg"], "identity": ["Identity"], "addzero": ["Add"]}[rule]
+        before, after = _count_ops(host, pat_ops), _count_ops(m2, pat_ops)
+        fixed = xk != "interior"
+        # Identity(x) -> x where the matched Identity IS the node that has to stay between two interface names (or, once the known finding
+        # ...:replacement-returns-outer-scope-value is repaired, between a branch output and a value of the enclosing graph): declined
+        declined_by_design = rule == "identity" and ok != "interior" and (fixed or where != "main")
+        fired = after < before
+        forwarded = any(n.op_type == "Identity" and list(n.input) == [v] for n in _nodes_deep_proto(m2.graph)) and rule != "identity"
+        if not fired and not declined_by_design:
+            stats["rule-did-not-fire"] += 1
+            ctx.tie_broken("harness", f"{fam}:rule-did-not-fire", f"{(rule, xk, ok, where, entry)}: ops after = {op_types(m2.graph.node)[:12]}")
+            continue
+        stats["fired"] += int(fired)
+        stats["declined-the-match-is-the-forwarding-Identity"] += int(not fired)
+        stats["forwarding-Identity-inserted"] += int(forwarded)
+        stats[f"entry:{entry}"] += 1
+        stats[f"x:{xk}"] += 1
+        stats[f"out:{ok}:{where}"] += 1
+        ctx.case((fam, rule, xk, ok, where, entry))
+        bad = False
+        try:
+            onnx.checker.check_model(m2, full_check=True)
+        except Exception as e:
+            bad = True
+            chk = str(e)
+            if where != "main" and xk == "interior" and "is not an output of any node in graph" in chk:
+                # known finding: the value returned by the replacement lives in the ENCLOSING graph and takes the place of the branch's output
+                ctx.violation("C04:rewrite:replacement-returns-outer-scope-value:subgraph-output-not-produced-in-subgraph",
+                              f"{entry} (rule {rule}, {cls}): the branch's output is replaced by a value of the enclosing graph; onnx.checker: {chk[:160]}",
+                              doc({"checker": chk[:300]}))
+                stats["known:subgraph-output-is-outer-value"] += 1
+                wf_known[len(coq_cases)] = "C04:rewrite:replacement-returns-outer-scope-value:subgraph-output-not-produced-in-subgraph"
+                coq_cases.append(((rule, path, "main", "none", entry), host, m2, bool(containers_missing(m2))))
+                continue
+            ctx.violation(f"C04:checker:{fam}:{cls}:{chk.splitlines()[0][:60]}", f"{entry} (rule {rule}): result fails onnx.checker: {chk[:200]}", doc({"checker": chk[:300]}))
+            stats["violations"] += 1
+        d = R.signature_diff(host, m2)
+        if d is not None:
+            bad = True
+            ctx.violation(f"C04:signature:{d[0]}:{fam}:{cls}", f"{entry} (rule {rule}): {d[1]}", doc({"signature": d[1]}))
+            stats["violations"] += 1
+        if not bad:
+            s2, o2 = R.run_ort(m2, feeds)
+            stats["ort-compared"] += 1
+            if s2 != "ok":
+                ctx.violation(f"C04:result-not-loadable:{fam}:{cls}", f"{entry} (rule {rule}): onnxruntime rejects the result: {str(o2)[:200]}", doc())
+                stats["violations"] += 1
+            else:
+                for x, y in zip(o0, o2):
+                    dd = R.compare_outputs(x, y, None)
+                    if dd is not None:
+                        ctx.violation(f"C04:result-differs:{fam}:{cls}", f"{entry} (rule {rule}): {dd}", doc())
+                        stats["violations"] += 1
+                        break
+        coq_cases.append(((rule, path, "main", "none", entry), host, m2, bool(containers_missing(m2))))
+    eval_in_coq(ctx, coq_cases, stats, fam=fam, wf_known=wf_known,
+                docf=lambda which, path, cont, pre, entry, host, extra=None: replay_doc(which, path, cont, pre, entry, host,
+                                                                                        dict({"feeds": R.feeds_json(XV_FEEDS)}, **(extra or {})), family=fam))
+    return stats
+
+
+def _nodes_deep_proto(g):
+    for n in g.node:
+        yield n
+        for a in n.attribute:
+            if a.type == onnx.AttributeProto.GRAPH:
+                yield from _nodes_deep_proto(a.g)
